@@ -48,6 +48,10 @@ type input struct {
 	Parse    *bool    `json:"parse"`
 	Asserted *bool    `json:"asserted"`
 	Complete *bool    `json:"complete"`
+	// SCT lists: which elements of a complete list are complete SCTs, and the same bytes seen through the entry
+	// points that read the list out of a certificate (entrypoints_test.go)
+	Elems   []bool    `json:"elems"`
+	Carried []carried `json:"carried"`
 }
 
 type dsFields struct {
@@ -127,11 +131,30 @@ type wireCase struct {
 		} `json:"obj"`
 		ToSTH conv `json:"tosth"`
 	} `json:"objs"`
-	Real bool      `json:"real"`
-	Exts []int     `json:"exts"`
-	SCTs []tm.Segs `json:"scts"`
-	Ins  []input   `json:"ins"`
-	Msgs []struct {
+	// the builders of the stored leaf (entrypoints_test.go)
+	Builder string `json:"builder"`
+	Hash    *struct {
+		Present bool    `json:"present"`
+		B       tm.Segs `json:"b"`
+	} `json:"hash"`
+	Form   string `json:"form"`
+	Stored *struct {
+		Ok        bool    `json:"ok"`
+		LeafValue tm.Segs `json:"leaf_value"`
+		ExtraData tm.Segs `json:"extra_data"`
+		Identity  tm.Segs `json:"identity"`
+	} `json:"stored"`
+	Reads bool `json:"reads"`
+	// the builders as the log front end reaches them (frontend_test.go)
+	Mode       string    `json:"mode"`
+	N          int       `json:"n"`
+	StoredForm string    `json:"storedform"`
+	ServedForm string    `json:"servedform"`
+	Real       bool      `json:"real"`
+	Exts       []int     `json:"exts"`
+	SCTs       []tm.Segs `json:"scts"`
+	Ins        []input   `json:"ins"`
+	Msgs       []struct {
 		Msg   map[string]json.RawMessage `json:"msg"`
 		ToSCT *conv                      `json:"tosct"`
 		ToSTH *conv                      `json:"tosth"`
@@ -818,6 +841,7 @@ func (c *checker) sctlist(cs *wireCase) {
 			}
 			return treeList(&got), rest, nil
 		})
+		c.listEntryPoints(cs, in)
 		if cs.Real && in.M == "valid" {
 			c.accept("x509util.ParseSCTsFromSCTList", in, true, func(b []byte) error {
 				var got x509.SignedCertificateTimestampList
@@ -852,7 +876,7 @@ func TestReplay(t *testing.T) {
 	if err != nil {
 		t.Fatal(err)
 	}
-	rep := vh.NewReport("c04-replay", "every case of MCRFC6962Wire.tla (MerkleTreeLeaf, SCT, SCT / STH signature inputs, DigitallySigned, SCT lists, extra-data chains with field values at the 1/2/3-byte length boundaries; mutated encodings) against tls.Marshal / tls.Unmarshal on the ct types, SerializeSCTSignatureInput, SerializeSTHSignatureInput, LeafHashForLeaf, ExtraDataForChain, the x509util SCT-list helpers, RawLogEntryFromLeaf / LogEntryFromLeaf, DigitallySigned base64 / JSON and the add-chain / get-sth messages; expected bytes, values and accept / reject are the specification's; non-trivial = distinct (structure, operation, mutation kind) with a successful decode")
+	rep := vh.NewReport("c04-replay", "every case of MCRFC6962Wire.tla (MerkleTreeLeaf, SCT, SCT / STH signature inputs, DigitallySigned, SCT lists, extra-data chains with field values at the 1/2/3-byte length boundaries; mutated encodings) against tls.Marshal / tls.Unmarshal on the ct types, SerializeSCTSignatureInput, SerializeSTHSignatureInput, LeafHashForLeaf, the four builders of the stored leaf (ExtraDataForChain / BuildLogLeaf / ExtraDataForChainHash / BuildLogLeafWithChainHash; chains of 0, 1, many certificates; hashes absent .. 257 bytes) on their own and behind add-chain / add-pre-chain + get-entries of a real ctfe.Instance in both issuance-chain modes, the SCT-list readers (tls.Unmarshal, ParseSCTsFromSCTList, ExtractSCT, and - the bytes inside the extension of a certificate issued by std crypto/x509 - x509.ParseCertificate / ParseCertificates / ParseTBSCertificate, x509util.CertificateFromPEM / CertificatesFromPEM / ParseSCTsFromCertificate DER and PEM), RawLogEntryFromLeaf / LogEntryFromLeaf, DigitallySigned base64 / JSON and the add-chain / get-sth messages; expected bytes, values and accept / reject are the specification's; non-trivial = distinct (structure, operation, mutation kind) with a successful decode")
 	c := &checker{rep: rep, counts: map[string]int{}}
 	kinds := map[string]int{}
 	for i := range cases {
@@ -874,6 +898,12 @@ func TestReplay(t *testing.T) {
 			c.sctlist(cs)
 		case "hash":
 			c.hash(cs)
+		case "logleaf":
+			c.logleaf(cs)
+		case "frontend":
+			if err := c.frontend(cs); err != nil {
+				t.Fatalf("front end case %v: %v", cs.ID, err)
+			}
 		default:
 			t.Fatalf("unknown case kind %q", cs.Kind)
 		}
@@ -899,7 +929,9 @@ func TestReplay(t *testing.T) {
 		t.Fatal(err)
 	}
 	if len(cases) > 50 {
-		for _, k := range []string{"enc:true", "enc:false", "dec:true", "dec:false", "parse:true", "parse:false"} {
+		for _, k := range []string{"enc:true", "enc:false", "dec:true", "dec:false", "parse:true", "parse:false",
+			"frontend:rfc", "frontend:hash", "carried:octet:true/true", "carried:octet:true/false", "carried:octet:false/false",
+			"carried:octet+trail:false/false", "carried:notoctet:false/false", "carried:absent:true/true"} {
 			if c.counts[k] == 0 {
 				t.Fatalf("vacuous run: no %s outcome (%s)", k, strings.Join(keys, ","))
 			}
